@@ -229,7 +229,7 @@ def lifetime_rules(rep, hirx, wd, st, tier):
     # implied bounds: every signature over 2 (thorough 3) lifetimes with every declared bound set
     sigs = list(S.enumerate_sigs(("a", "b"), ["none", "&'x self on Op", "self: SB<'x>", "self: S2<'x,'y>"],
                                  ["&'x Op", "&'x OpL<'y>", "S2b<'x,'y>", "S2<'x,'y>", "SB<'x>", "&'x [u8]", S.S3_PARAM, S.SREF_PARAM, S.SOPTREF_PARAM, "Option<&'x OpL<'y>>"], 1,
-                                 [f for f in S.RET_FORMS if f.name in ("&'r Op", "&'r OpL<'s>", "Box<OpL<'r>>", "S2<'r,'s>", "S2b<'r,'s>", "&'r [u8]", "Result<u8, S2b<'r,'s>>", "Result<S2b<'r,'s>, u8>")] + [S.S3_RET]))
+                                 [f for f in S.RET_FORMS if f.name in ("&'r Op", "&'r OpL<'s>", "Box<OpL<'r>>", "S2<'r,'s>", "S2b<'r,'s>", "&'r [u8]", "Result<u8, S2b<'r,'s>>", "Result<S2b<'r,'s>, u8>", "Option<S2b<'r,'s>>")] + [S.S3_RET]))
     if tier == "thorough":
         sigs += list(S.enumerate_sigs(("a", "b", "c"), ["none", "&'x self on Op"], ["&'x OpL<'y>", "S2b<'x,'y>", "&'x Op", S.S3_PARAM], 1,
                                       [f for f in S.RET_FORMS if f.name in ("&'r Op", "&'r OpL<'s>", "Box<OpL<'r>>", "S2b<'r,'s>", "Result<u8, S2b<'r,'s>>")] + [S.S3_RET]))
